@@ -664,7 +664,9 @@ func (sm *vfC16SM) fail(format string, args ...any) {
 	kit.Violation(sm.rt, "C16", "SM", sm.render(), format, args...)
 }
 
-func (sm *vfC16SM) op(format string, args ...any) { sm.ops = append(sm.ops, fmt.Sprintf(format, args...)) }
+func (sm *vfC16SM) op(format string, args ...any) {
+	sm.ops = append(sm.ops, fmt.Sprintf(format, args...))
+}
 
 func (sm *vfC16SM) inconclusive(msg string) {
 	kit.InconclusiveLine("C16", "%s", msg)
